@@ -648,26 +648,22 @@ UNDECIDABLE_REFACTORS = {
     # wave 10 (behaviour-preserving restructurings in five harder styles:
     # object-oriented, data-flow, table-driven, signature work, cross-module).
     # The checks decline on these; first reason as reported by the check:
-    "R01_19": ("C01", "C02", "C03", "C04", "C05", "C11", "C15",),
+    "R01_19": ("C01", "C02", "C03", "C04", "C05", "C15",),
     #     C01.7 (shared clause of C05): c05: [snd_longer=True] expected two reduce_to_ids calls
     "R01_20": ("C01", "C02", "C05", "C10", "C11", "C12",),
     #     analysis stopped: APE[full_transformation]: self.error is never assigned
-    "R01_21": ("C01", "C02",),
-    #     C01.1 at evo/core/metrics.py:419: form not recognised, no evidence of a deviation: [evo.core.metrics.APE.proce
     "R02_19": ("C10",),
     #     C10.1 at evo/core/filters.py:89 (evo.core.filters.filter_pairs_by_index): frames/consecutive: the pairs are no
     "R02_20": ("C02", "C05", "C10", "C12",),
     #     analysis stopped: RPE[full_transformation]: error / delta_ids never assigned
-    "R02_21": ("C01", "C02", "C10",),
-    #     C01.1 at evo/core/metrics.py:421: form not recognised, no evidence of a deviation: [evo.core.metrics.APE.proce
+    "R02_21": ("C02", "C10",),
+    #     C10.6 at evo/core/metrics.py:451 (evo.core.metrics.id_pairs_from_delta): form not recognised, no evidence of a
     "R03_18": ("C03", "C04", "C08",),
     #     analysis stopped: SVD call not found (unknown idiom)
     "R03_19": ("C03", "C04",),
     #     C03.6 at evo/core/geometry.py:83 (evo.core.geometry.umeyama_alignment): [with_scale=True] equivariance typing:
     "R03_21": ("C01", "C02", "C03", "C04", "C08",),
     #     C01.9 (shared clause of C04): c04: test of n against its 'all poses' marker not found in align (unknown idiom)
-    "R04_18": ("C01", "C02", "C04", "C05", "C08", "C11", "C12", "C15", "C20",),
-    #     C01.6 (shared clause of C08): c08: anchor function vanished: evo.core.trajectory.PosePath3D.num_poses
     "R04_19": ("C03", "C04",),
     #     C03.6 at evo/core/geometry.py:52 (evo.core.geometry.umeyama_alignment): [with_scale=True] equivariance typing:
     "R04_20": ("C08", "C15",),
@@ -690,16 +686,12 @@ UNDECIDABLE_REFACTORS = {
     #     C07.1 at evo/tools/file_interface.py:540 (evo.tools.file_interface.load_transform): form not recognised, no ev
     "R07_21": ("C17",),
     #     C17.2 at evo/tools/file_interface.py:237: form not recognised, no evidence of a deviation: numpy.savetxt in ev
-    "R08_18": ("C01", "C02", "C04", "C05", "C08", "C11", "C12", "C15", "C20",),
-    #     C01.6 (shared clause of C08): c08: anchor function vanished: evo.core.trajectory.PosePath3D.num_poses
     "R08_19": ("C08", "C11", "C15",),
     #     C08.5 at evo/core/trajectory.py:173 (evo.core.trajectory.PosePath3D.transform): transform[propagate]: relative
     "R08_20": ("C08", "C15",),
     #     C08.5 at evo/core/trajectory.py:217 (evo.core.trajectory.PosePath3D.transform): transform[propagate]: the stor
     "R08_21": ("C01", "C02", "C04", "C05", "C08", "C11", "C12", "C15", "C20",),
     #     C01.6 (shared clause of C08): c08: expected >=4 view-writing methods, found ['evo.core.trajectory.PosePath3D.p
-    "R08_22": ("C01", "C02", "C05", "C10", "C12",),
-    #     _pipeline: evo.main_ape.ape: pipeline steps not found (unknown idiom)
     "R09_18": ("C01", "C02", "C09", "C10",),
     #     C09.4 at evo/core/lie_algebra.py:167 (evo.core.lie_algebra.so3_log_angle): angle idiom not recognised: (float(
     "R09_21": ("C01", "C02", "C04", "C09",),
@@ -740,8 +732,6 @@ UNDECIDABLE_REFACTORS = {
     #     C14.1 at evo/core/trajectory.py:230 (evo.core.trajectory.PosePath3D.project): Plane.XY: the axis of the rebuil
     "R14_21": ("C14",),
     #     analysis stopped: Plane.XY: heading is not an element of euler_from_matrix(...) (unknown idiom: functools.part
-    "R14_22": ("C01", "C02", "C05", "C10", "C12",),
-    #     _pipeline: evo.main_ape.ape: pipeline steps not found (unknown idiom)
     "R15_18": ("C11", "C15",),
     #     C11.8 (shared clause of C15): c15: step `merge` not found in evo.main_traj.run (anchor vanished / unknown idio
     "R15_19": ("C05", "C08", "C11", "C15",),
@@ -750,8 +740,6 @@ UNDECIDABLE_REFACTORS = {
     #     C07.1 at evo/tools/file_interface.py:521 (evo.tools.file_interface.load_transform): form not recognised, no ev
     "R15_21": ("C15", "C17",),
     #     C15.9 at evo/main_traj.py:202 (evo.main_traj.run): export as tum: the writer is handed to a worker function; w
-    "R15_22": ("C01", "C02", "C05", "C10", "C12",),
-    #     _pipeline: evo.main_ape.ape: pipeline steps not found (unknown idiom)
     "R16_19": ("C01", "C02", "C05", "C13", "C15",),
     #     C01.7 (shared clause of C05): c05: [snd_longer=True] expected two reduce_to_ids calls
     "R16_20": ("C01", "C02", "C12",),
